@@ -768,6 +768,31 @@ fn c13_rt48_body(page: u8, off: usize, mode: SpMode) {
     kani::cover!(a.im == 2 && a.iff2 && a.border == 5 && pc == 0xABCD && a.af_alt != a.af, "saver state free");
 }
 
+// @harness
+// @prop C13 C06
+// @tier quick
+// @timeout 300
+// @fn ZXController::write_7ffd; ZXController::read_7ffd
+// @sym 128K machine; a locking latch value (bit 5 set, everything else symbolic) and any later value written to the port
+// @assert what the 128K SNA saver reads as "the value of port 7FFD" (read_7ffd) is the last ACCEPTED value: a write that the locked latch ignores changes neither the value reported to the saver nor the lock, the bank at C000, the ROM or the screen bank
+// @bound two port writes
+#[kani::proof]
+fn c13_locked_latch_keeps_its_value() {
+    let mut e = mk_emulator(ZXMachine::Sinclair128K, CTX);
+    let v1: u8 = kani::any();
+    kani::assume(v1 & 0x20 != 0);
+    let v2: u8 = kani::any();
+    controller(&mut e).write_7ffd(v1);
+    controller(&mut e).write_7ffd(v2);
+    let c = controller(&mut e);
+    kani::assert(c.read_7ffd() == v1, "c13.latch.value_reported_to_the_saver_is_the_last_accepted_one");
+    kani::assert(!ch::paging_enabled(c), "c13.latch.stays_locked");
+    kani::assert(c.memory.get_page(0xC000) == crate::zx::memory::Page::Ram(v1 & 7), "c13.latch.bank_unchanged");
+    kani::assert(c.memory.get_page(0x0000) == crate::zx::memory::Page::Rom((v1 >> 4) & 1), "c13.latch.rom_unchanged");
+    kani::assert(ch::screen_bank(c) == if v1 & 8 != 0 { 7 } else { 5 }, "c13.latch.screen_unchanged");
+    kani::cover!(v2 & 0x20 == 0 && v2 & 7 != v1 & 7, "ignored write asks for another bank and no lock");
+}
+
 /// 128K round trip with concrete 7FFD values: `hi`|`paged` in the saver, `latch0` in the receiver.
 fn c13_rt128_body(bank: u8, paged: u8, off: usize, hi: u8, latch0: u8) {
     let a = any_abs();
@@ -785,8 +810,9 @@ fn c13_rt128_body(bank: u8, paged: u8, off: usize, hi: u8, latch0: u8) {
     controller(&mut s).write_7ffd(latch);
     if latch & 0x20 != 0 {
         // paging is locked: whatever the program writes to the latch afterwards is ignored by the hardware
-        // and must leave no trace in the snapshot either
-        controller(&mut s).write_7ffd(kani::any());
+        // and must leave no trace in the snapshot either (literal value: a symbolic one would make the file
+        // layout symbolic on a tree that wrongly records it; all values: c13_locked_latch_keeps_its_value)
+        controller(&mut s).write_7ffd(latch ^ 0x17);
     }
     set_ram_byte(&mut s, bank, off, wv);
     // the saver may be waiting in HALT: the file holds the PC of the HALT opcode (see c13_save48_rec)
